@@ -153,8 +153,27 @@ class Translator:
             return dfa_len(self.ab, '<=', idx)
         return dfa_len(self.ab, '<', -idx)
 
+    @staticmethod
+    def _inline_locals(node, env):
+        """`length = len(n)` ... `if length < 1`: replace a local bound to
+        an expression by that expression (locals bound to the validated
+        string itself are handled by is_var)."""
+        if not any(isinstance(v, ast.AST) for v in env.values()):
+            return node
+
+        class T(ast.NodeTransformer):
+            def visit_Name(self, n):
+                v = env.get(n.id)
+                if isinstance(n.ctx, ast.Load) and isinstance(v, ast.AST):
+                    return v
+                return n
+        import copy
+        return T().visit(copy.deepcopy(node))
+
     def cond(self, node, var, env, mod):
         ab = self.ab
+        if not (isinstance(node, ast.Name) and node.id in env):
+            node = self._inline_locals(node, env)
         if isinstance(node, ast.BoolOp):
             parts = [self.cond(v, var, env, mod) for v in node.values]
             cur = parts[0]
@@ -381,7 +400,10 @@ class Translator:
                     sub = self.validator(callee[1], depth + 1)
                     self.len_atoms = saved + sub['len_atoms']
                     st['alive'] = st['alive'] & sub['accept']
-                    st['wrong'].extend(sub['wrong'])
+                    if in_try != 'all':
+                        # (inside a catch-all that converts, whatever the
+                        # delegate raises comes out as MarshallingError)
+                        st['wrong'].extend(sub['wrong'])
                     continue
             if isinstance(s, ast.Return):
                 st['accepted_early'] = st['accepted_early'] | st['alive']
@@ -399,8 +421,17 @@ class Translator:
 
     def handler_converts(self, h):
         """except ...: raise MarshallingError(...)"""
-        return len(h.body) == 1 and isinstance(h.body[0], ast.Raise) and \
-            self.exc_name(h.body[0]) == 'MarshallingError'
+        if not h.body or not isinstance(h.body[-1], ast.Raise) or \
+                self.exc_name(h.body[-1]) != 'MarshallingError':
+            return False
+        # statements before the raise may only prepare the message
+        for st in h.body[:-1]:
+            if not isinstance(st, (ast.Assign, ast.AugAssign, ast.Expr)):
+                return False
+            if any(isinstance(n, (ast.Raise, ast.Return, ast.Yield))
+                   for n in ast.walk(st)):
+                return False
+        return True
 
     def if_stmt(self, s, fi, var, env, st, in_try, depth):
         c = self.cond(s.test, var, env, fi.module)
